@@ -133,7 +133,14 @@ async fn log_thread(
     loop {
         let e = rx.recv().await.ok_or_else(|| err_msg("dequeue"))?;
         if let Some(e) = e {
-            let mut line = format.to_string(e).context("deserializer error")?;
+            // a record the format script cannot render (a dynamic error of the expression) is skipped, not fatal
+            let mut line = match format.to_string(e) {
+                Ok(line) => line,
+                Err(e) => {
+                    tracing::warn!("access log: failed to format record: {} cause: {:?}", e, e.cause);
+                    continue;
+                }
+            };
             line += "\r\n";
             stream
                 .write(line.as_bytes())
